@@ -500,7 +500,7 @@ def write_evidence(mod, tier, base_seed, stats, extra, wall, wall_runs, n_viol, 
         "wall_s": round(wall, 2),
         "violations": n_viol,
     }
-    edir = os.path.join(VERIF, "evidence")
+    edir = os.environ.get("VERIF_EVIDENCE_DIR", os.path.join(VERIF, "evidence"))
     os.makedirs(edir, exist_ok=True)
     with open(os.path.join(edir, f"{mod.PROPERTY}.json"), "w") as f:
         f.write(dumps(ev, indent=1))
